@@ -3514,12 +3514,18 @@ class __implementations__:
             i = newshape.index(-1)
             if -1 in newshape[i+1:]:
                 raise ValueError('can only specify one unknown dimension')
-            length, remainder = builtins.divmod(arg.size, numpy.prod(newshape, initial=-1))
+            known = numpy.prod(newshape, initial=-1)
+            if not known:
+                raise ValueError(f'cannot reshape array of size {arg.size} into shape {newshape}')
+            length, remainder = builtins.divmod(arg.size, known)
             if remainder:
                 raise ValueError(f'cannot reshape array of size {arg.size} into shape {newshape}')
             newshape = (*newshape[:i], length, *newshape[i+1:])
         elif numpy.prod(newshape, initial=1) != arg.size:
             raise ValueError(f'cannot reshape array of size {arg.size} into shape {newshape}')
+        if not arg.size:
+            # an empty array has no entries to rearrange
+            return zeros(tuple(newshape), arg.dtype)
         ncommon = 0
         while arg.ndim > ncommon and len(newshape) > ncommon and arg.shape[ncommon] == newshape[ncommon]:
             ncommon += 1
